@@ -3,10 +3,11 @@ from vlib.tok import f64, s as S, lst
 from checks.storegen import World, PLAIN, NAMES
 ID = 'C12'
 THEOREMS = [
-    'Nix.C12.uuidChars_wellformed', 'Nix.C12.uuidText_wellformed', 'Nix.C12.byte_inj', 'Nix.C12.uuidChars_injective', 'Nix.C12.uuidText_eq_iff',
+    'Nix.C12.uuidChars_wellformed', 'Nix.C12.uuidText_wellformed', 'Nix.C12.byte_inj', 'Nix.C12.uuidChars_injective', 'Nix.C12.uuidText_injective', 'Nix.C12.uuidText_eq_iff',
     'Nix.C12.step_inv', 'Nix.C12.ids_distinct_invariant', 'Nix.C12.id_immutable', 'Nix.C12.id_immutable_history',
     'Nix.C12.same_seed_same_ids', 'Nix.C12.time_seeded_not_fresh',
 ]
+FLAVOUR = {'quick': 'plain', 'thorough': 'asan'}
 RULE = ('(1) batches of ids straight from util::createId(): format (8-4-4-4-12 lower-case hex, version nibble 4, variant 10xx), membership in the image of the '
         'model\'s uuidText, pairwise distinctness over the case.  (2) random entity-tree histories of the store grammar with a snapshot of every entity\'s '
         '(kind, parent, name, creation time) -> id after EVERY op: creations on existing names (every kind — the re-identification path), setters, links, '
